@@ -1,6 +1,7 @@
 package main
 
 import (
+	"runtime"
 	"bytes"
 	"context"
 	"math/rand"
@@ -21,7 +22,7 @@ import (
 func init() { commands["C01"] = runC01 }
 
 func runC01(r *Run) {
-	r.Result.Rule = "scenario = one server configuration (peer store, security extension, passive, query hook crossed) receiving (i) structured KRPC with fields missing / extra / oversized / wrongly typed / deeply nested, (ii) byte mutations of valid encodings (truncate, flip, splice, length-prefix lies, trailing bytes), (iii) raw bytes, (iv) hostile replies (every subset of response fields present, absent or malformed) to its own in-flight ping, bootstrap, announce, BEP 44 get and put traversals; afterwards a probe ping from a fresh address must be answered and Stats/NumNodes/Nodes must return; non-trivial = distinct datagram that is not plain random bytes"
+	r.Result.Rule = "scenario = one server configuration (peer store, security extension, passive, query hook crossed) receiving (i) structured KRPC with fields missing / extra / oversized / wrongly typed / deeply nested, (ii) byte mutations of valid encodings (truncate, flip, splice, length-prefix lies, trailing bytes), (iii) raw bytes, (iv) hostile replies (every subset of response fields present, absent or malformed, one address listed under many IDs) to its own in-flight ping, bootstrap, announce, BEP 44 get and put traversals; (v) TableMaintainer over a populated table with datagrams arriving at the moments the server consults its blocklist; afterwards a probe ping from a fresh address must be answered and Stats/NumNodes/Nodes must return; non-trivial = distinct datagram that is not plain random bytes"
 	n := r.n(60, 600)
 	for i := 0; i < n; i++ {
 		o := srvOpts{noSecurity: i%3 != 0, passive: i%7 == 6, hook: i%5 == 4, peerStore: i%2 == 0, callback: i%4 == 0}
@@ -40,6 +41,9 @@ func runC01(r *Run) {
 			r.sample(append([]string{}, sc.events[:min(len(sc.events), 6)]...))
 		}
 		sc.close()
+	}
+	for i := 0; i < r.n(12, 150); i++ {
+		r.c01Maintenance(i)
 	}
 	// the modelled stream as well (never_crashes / inv_step tie): well-typed traffic replayed on the model
 	for i := 0; i < r.n(10, 200); i++ {
@@ -246,6 +250,21 @@ func (sc *srvScen) hostileReplyTo(lr *Run, d dgram, key ed25519.PublicKey, salt 
 	for i := 0; i < r.Intn(4); i++ {
 		nodes = append(nodes, compactNode(lr.randID(), lr.randIP(0), 1+r.Intn(65000))...)
 	}
+	if r.Intn(3) == 0 {
+		// one address under several IDs, listed repeatedly, the asked address itself, nodes6 as well
+		ip, port := lr.randIP(0), 1+r.Intn(65000)
+		for i := 0; i < 2+r.Intn(7); i++ {
+			nodes = append(nodes, compactNode(lr.randID(), ip, port)...)
+		}
+		var n6 []byte
+		ip6 := lr.randIP(1)
+		for i := 0; i < r.Intn(4); i++ {
+			n6 = append(n6, compactNode(lr.randID(), ip6, port)...)
+		}
+		if len(n6) > 0 {
+			rd.set("nodes6", bB(n6))
+		}
+	}
 	if len(nodes) > 0 {
 		rd.set("nodes", bB(nodes))
 	}
@@ -345,16 +364,28 @@ func (sc *srvScen) hostileReplies(variant int) {
 	for i := 0; i < 3; i++ {
 		sc.s.AddNode(nodeInfo(sc.r.randID(), sc.freshSrc(0)))
 	}
-	ctx, cancel := context.WithTimeout(context.Background(), 3*time.Second)
+	// Every query of the operation is either answered (while the reply budget lasts) or times out
+	// after a few milliseconds, so each operation must come to its end by itself; the context is only
+	// a back-stop, and running into it is reported.
+	const backstop = 6 * time.Second
+	ctx, cancel := context.WithTimeout(context.Background(), backstop)
 	defer cancel()
 	done := make(chan struct{})
+	var selfEnded atomic.Bool
 	go func() {
 		defer close(done)
 		switch variant % 5 {
 		case 0:
-			sc.s.BootstrapContext(ctx)
+			if variant%10 == 0 {
+				sc.s.Bootstrap() // no context at all: must return by itself
+				selfEnded.Store(true)
+			} else {
+				_, err := sc.s.BootstrapContext(ctx)
+				selfEnded.Store(err == nil || ctx.Err() == nil)
+			}
 		case 1:
 			a, err := sc.s.AnnounceTraversal(sc.r.randID(), dht.AnnouncePeer(dht.AnnouncePeerOpts{Port: 6881}))
+			selfEnded.Store(true)
 			if err == nil {
 				go func() {
 					for range a.Peers {
@@ -363,11 +394,13 @@ func (sc *srvScen) hostileReplies(variant int) {
 				select {
 				case <-a.Finished():
 				case <-ctx.Done():
+					selfEnded.Store(false)
 					a.Close()
 				}
 			}
 		case 2:
 			getput.Get(ctx, target, sc.s, nil, salt)
+			selfEnded.Store(ctx.Err() == nil)
 		case 3:
 			getput.Put(ctx, target, sc.s, salt, func(seq int64) bep44.Put {
 				p := bep44.Put{V: "x", Salt: salt, Seq: seq + 1}
@@ -377,19 +410,90 @@ func (sc *srvScen) hostileReplies(variant int) {
 				p.Sign(priv)
 				return p
 			})
+			selfEnded.Store(ctx.Err() == nil)
 		default:
 			for i := 0; i < 5; i++ {
 				sc.s.Ping(sc.freshSrc(0))
 			}
+			selfEnded.Store(true)
 		}
 	}()
 	select {
 	case <-done:
-	case <-time.After(8 * time.Second):
+		if !selfEnded.Load() {
+			sc.viol("C01", fmt.Sprintf("operation (variant %d) under hostile replies did not come to its end although every query was answered or timed out (stopped by the %v back-stop)", variant%5, backstop))
+		}
+	case <-time.After(backstop + 4*time.Second):
 		sc.viol("C01", "operation under hostile replies did not return")
 	}
 	sc.conn.waitIdle(5 * time.Second)
 	sc.ev("hostile replies to operation variant %d", variant%5)
+}
+
+// Reachable state "table maintenance in progress": TableMaintainer (bootstrap, questionable-node
+// pings, refreshBucket traversals that hold the server's read lock while they feed the table's
+// contacts through the traversal node filter) runs over a populated table while datagrams arrive
+// at exactly the moments the server consults its blocklist. The arrivals are pings and hostile
+// replies; afterwards the node must still answer and the API must still return.
+func (r *Run) c01Maintenance(i int) {
+	bl := &rangeList{}
+	sc := r.newSrvScen(srvOpts{noSecurity: true, blocked: bl, mute: true, peerStore: i%2 == 0})
+	defer sc.close()
+	for k := 0; k < 3+r.rng.Intn(10); k++ {
+		sc.s.AddNode(nodeInfo(sc.r.structuredID(sc.root), sc.freshSrc(k%2)))
+	}
+	sc.conn.waitIdle(time.Second)
+	var budget atomic.Int64
+	budget.Store(int64(10 + r.rng.Intn(50)))
+	var ctr atomic.Int64
+	lr := &Run{rng: rand.New(rand.NewSource(r.rng.Int63()))}
+	var lmu sync.Mutex
+	probe := func(net.IP) {
+		// where is the server consulting its blocklist? (evidence: which look-up sites were reached)
+		site := "other"
+		pcs := make([]uintptr, 24)
+		fr := runtime.CallersFrames(pcs[:runtime.Callers(2, pcs)])
+		for {
+			f, more := fr.Next()
+			switch {
+			case strings.HasSuffix(f.Function, ".refreshBucket"):
+				site = "refreshBucket"
+			case strings.HasSuffix(f.Function, ".TraversalNodeFilter") && site == "other":
+				site = "TraversalNodeFilter"
+			case strings.HasSuffix(f.Function, ".processPacket") && site == "other":
+				site = "processPacket"
+			case strings.HasSuffix(f.Function, ".writeToNode") && site == "other":
+				site = "writeToNode"
+			}
+			if !more || site == "refreshBucket" {
+				break
+			}
+		}
+		lmu.Lock()
+		skip := site != "refreshBucket" && lr.rng.Intn(6) != 0
+		id := lr.randID()
+		lmu.Unlock()
+		if skip || budget.Add(-1) < 0 {
+			return
+		}
+		n := ctr.Add(1)
+		src := &net.UDPAddr{IP: net.IP{198, 18, byte(n >> 8), byte(n)}, Port: 20000 + int(n)}
+		q := &qspec{y: "q", q: "ping", t: []byte{'m', byte(n)}, hasA: true, id: id, ro: n%2 == 0}
+		sc.conn.inject(q.bval().enc(), src)
+		sc.r.hist("stream/arrival-during-blocklist-lookup/" + site)
+		// let the receive loop pick the datagram up while the caller is still where it is
+		time.Sleep(300 * time.Microsecond)
+	}
+	sc.resend.Store(int64(2 * time.Millisecond))
+	bl.probe.Store(&probe)
+	go sc.s.TableMaintainer()
+	waitFor(func() bool { return budget.Load() <= 0 }, 600*time.Millisecond)
+	bl.probe.Store(nil)
+	sc.resend.Store(int64(time.Hour))
+	sc.ev("table maintenance over %d contacts with %d arrivals at blocklist look-ups", sc.s.NumNodes(), ctr.Load())
+	sc.r.count(fmt.Sprintf("maint/%d/%d", i, ctr.Load()), ctr.Load() > 0)
+	sc.probe()
+	r.Result.TracesValidated++
 }
 
 // Afterwards: a well-formed ping from a fresh address is answered and the API returns.
